@@ -21,7 +21,10 @@
                               `_running_tasks`, iff `limit is None or len(running) < limit`
               `left w`      — `_task_done_callback`: the finished task leaves `_running_tasks`
                               (and, if it failed, `exception_handler` cancels the watcher)
-  * worker w: `take w e`    — `wait_for(backlog.get())` returned `e`; the processor is entered
+  * worker w: `start w`     — the task's first step: enters `try:` and its first `wait_for(backlog.get(), …)`
+                              (with a positive timeout and the filled queue it goes straight on to `take`
+                              in the same segment; with `idle_timeout <= 0` it really suspends here)
+              `take w e`    — `wait_for(backlog.get())` returned `e`; the processor is entered
               `finish w`    — the processor returned; back to `wait_for(backlog.get())`
               `fail w`      — the processor raised: `finally: del streams[key]` (the backlog is dropped
                               with it), the task ends with the exception
@@ -66,7 +69,7 @@ structure Wid where
 /-- Program counter of a worker instance. -/
 inductive Pc where
   | pending                 -- coroutine object sits in `Scheduler._pending_coros`
-  | spawned                 -- task created (in `_running_tasks`), first step not yet executed
+  | spawned                 -- task created (in `_running_tasks`), first step not yet executed (`start`)
   | waiting                 -- suspended in `wait_for(backlog.get(), timeout)`
   | busy (e : Ev)           -- suspended inside `processor(raw_event=e)`
   | checked                 -- (`stepBuggy` only) saw an empty backlog on timeout, not yet erased
@@ -140,6 +143,7 @@ inductive Label where
   | miss (k : Key) (e : Ev)
   | insert
   | spawn
+  | start (w : Wid)
   | take (w : Wid) (e : Ev)
   | finish (w : Wid)
   | fail (w : Wid)
@@ -192,8 +196,12 @@ def stepCore (buggy : Bool) (s : State) : Label → Option State
         some { s with pendingQ := rest, running := s.running ++ [w], pc := upd s.pc w (some .spawned) }
       else none
     | [] => none
+  | .start w =>
+    if s.closed = false ∧ s.pc w = some .spawned then
+      some { s with pc := upd s.pc w (some .waiting) }
+    else none
   | .take w e =>
-    if s.closed = false ∧ (s.pc w = some .spawned ∨ s.pc w = some .waiting) then
+    if s.closed = false ∧ s.pc w = some .waiting then
       match s.streams w.key with
       | some (.ev e' :: rest) =>
         if e' = e then
@@ -222,9 +230,7 @@ def stepCore (buggy : Bool) (s : State) : Label → Option State
       | _ => none
     else none
   | .timeoutTake w e =>
-    -- (also from `spawned`: with `idle_timeout <= 0` the very first wait of a fresh task times out
-    --  without looking at its filled queue)
-    if s.closed = false ∧ (s.pc w = some .spawned ∨ s.pc w = some .waiting) then
+    if s.closed = false ∧ s.pc w = some .waiting then
       match s.streams w.key with
       | some (.ev e' :: rest) =>
         if e' = e then
@@ -247,7 +253,7 @@ def stepCore (buggy : Bool) (s : State) : Label → Option State
       some { s with streams := upd s.streams w.key none, pc := upd s.pc w (some (.leaving false)) }
     else none
   | .eosExit w =>
-    if s.closed = false ∧ (s.pc w = some .spawned ∨ s.pc w = some .waiting) then
+    if s.closed = false ∧ s.pc w = some .waiting then
       match s.streams w.key with
       | some (.eos :: _) =>
         some { s with streams := upd s.streams w.key none, pc := upd s.pc w (some (.leaving false)) }
